@@ -541,7 +541,12 @@ def simulate(flat: Flat, emulate_stale=False, emulate_sampled_start=False, prese
                 if final >= 0:
                     retarget = final != prev_final
                     s.val, s.valid = S[final].val, S[final].valid
-                    if (retarget and (S[final].valid or (ref_invalid_notify and prev_final >= 0 and S[prev_final].valid))) or (final in ticked):
+                    # a retarget AWAY from a valid target to one that holds no value: whether the readers are woken is not
+                    # pinned down by the property (True: always, False: never, "old_ticked": only when the old target ticks in
+                    # that very cycle - the readers are then told by the old target before they are re-bound)
+                    inv_wake = prev_final >= 0 and S[prev_final].valid and (
+                        ref_invalid_notify is True or (ref_invalid_notify == "old_ticked" and prev_final in ticked))
+                    if (retarget and (S[final].valid or inv_wake)) or (final in ticked):
                         s.lmt = t
                         ticked.add(k)
                         R.stats["ref_retargets" if retarget else "ref_target_ticks"] = R.stats.get("ref_retargets" if retarget else "ref_target_ticks", 0) + 1
